@@ -104,6 +104,15 @@ func c11Run(p c11Plan) *common.Fail {
 		if got := fromLibLData(l); !sameRLData(got, &want) {
 			return common.Failf("layout-decode-fields", "bytes %x\n decoded  %+v\n expected %+v", ref, *got, want)
 		}
+		// the extracted fields belong to the decoded value, not to the buffer they were read from (the UDP receiver
+		// decodes every datagram out of the same buffer)
+		orig := append([]byte{}, ref...)
+		for i := range ref {
+			ref[i] ^= 0x5a
+		}
+		if got := fromLibLData(l); !sameRLData(got, &want) {
+			return common.Failf("layout-decode-aliases-input", "fields decoded from %x change when that buffer is overwritten:\n now      %+v\n expected %+v", orig, *got, want)
+		}
 	case "bytes":
 		b, _ := hex.DecodeString(p.Hex)
 		want, rerr := common.RefDecodeCemi(b)
@@ -121,6 +130,13 @@ func c11Run(p c11Plan) *common.Fail {
 		}
 		if got := fromLibLData(l); !sameRLData(got, want.LData) {
 			return common.Failf("layout-decode-fields", "bytes %x\n decoded  %+v\n reference decoder %+v", b, *got, *want.LData)
+		}
+		orig := append([]byte{}, b...)
+		for i := range b {
+			b[i] ^= 0x5a
+		}
+		if got := fromLibLData(l); !sameRLData(got, want.LData) {
+			return common.Failf("layout-decode-aliases-input", "fields decoded from %x change when that buffer is overwritten:\n now      %+v\n reference decoder %+v", orig, *got, *want.LData)
 		}
 	case "helper":
 		x := uint8(p.Arg)
